@@ -224,34 +224,27 @@ def _const_bool_arg(fn, t, i):
 
 
 def r11_4(ctx):
+    """the validating flag is carried through the recursion: under specialisation on the flag each entry point passes down
+    (a bool or a field-less enum), the checked get_many reaches the checked member walkers and none of the unchecked ones,
+    and get_many_unchecked the reverse - the walkers recurse in their own mode"""
+    from ..analysis import specialised_reach, path_to
     prog = ctx.prog()
-    f = _rec(prog)
-    # the flag parameter is the 6th (self, node, out, strbuf, remain, is_safe)
-    flag = 6
-    sw = [(b, t) for b, t in f.terms() if t["k"] == "switch" and op_local(t["discr"]) is not None and f.src(op_local(t["discr"])) == ("param", flag)]
-    ctx.floor("R11.4", "tests of the validating flag in get_many_rec", len(sw), 2)
-    for b, t in sw:
-        false_t = [x for v, x in t["targets"] if int(v) == 0]
-        true_t = t["otherwise"]
-        if not false_t:
-            ctx.ob("R11.4", f"flag-dispatch@{b}", False, f.loc(t["ln"]), "unrecognised flag test")
-            continue
-        tcalls = {tt["callee"].rsplit("::", 1)[-1] for bb, tt in f.calls() if f.dominates(true_t, bb) and "get_many_" in tt["callee"]}
-        fcalls = {tt["callee"].rsplit("::", 1)[-1] for bb, tt in f.calls() if f.dominates(false_t[0], bb) and "get_many_" in tt["callee"]}
-        ok = bool(tcalls) and bool(fcalls) and all(not c.endswith("_unchecked") for c in tcalls) and all(c.endswith("_unchecked") for c in fcalls)
-        ctx.ob("R11.4", f"flag-dispatch:{'/'.join(sorted(tcalls | fcalls))}", ok, f.loc(t["ln"]), f"is_safe -> {sorted(tcalls)}, !is_safe -> {sorted(fcalls)}")
-    for name, want in (("get_many_keys", 1), ("get_many_index", 1), ("get_many_keys_unchecked", 0), ("get_many_index_unchecked", 0)):
-        g = _p(prog, f"Parser::{name}")
-        recs = [(b, t) for b, t in g.calls() if callee_is(t, "get_many_rec")]
-        vals = [_const_bool_arg(g, t, 5) for b, t in recs]
-        ok = bool(recs) and all(v == want for v in vals)
-        ctx.ob("R11.4", f"recursion-flag:{name}", ok, g.loc(), f"{name} recurses with is_safe = {vals} (expected {bool(want)})")
-    for entry, want in (("lazyvalue::get::get_many", 1), ("lazyvalue::get::get_many_unchecked", 0)):
+    checked = {_p(prog, "Parser::get_many_keys").id, _p(prog, "Parser::get_many_index").id}
+    unchecked = {_p(prog, "Parser::get_many_keys_unchecked").id, _p(prog, "Parser::get_many_index_unchecked").id}
+    rec = _rec(prog)
+    # the dispatcher really dispatches: both families are called from it
+    called = {t["callee"] for b, t in rec.calls()}
+    ctx.ob("R11.4", "flag-dispatch", checked <= called and unchecked <= called, rec.loc(), f"get_many_rec calls {sorted(x.rsplit('::', 1)[-1] for x in called & (checked | unchecked))}")
+    for entry, want, other in (("lazyvalue::get::get_many", checked, unchecked), ("lazyvalue::get::get_many_unchecked", unchecked, checked)):
         g = _p(prog, entry)
-        cs = [(b, t) for b, t in g.calls() if callee_is(t, "get_many") and "Parser" in t["callee"]]
-        vals = [_const_bool_arg(g, t, 2) for b, t in cs]
-        ok = len(cs) == 1 and vals == [want]
-        ctx.ob("R11.4", f"entry-flag:{entry.rsplit('::', 1)[-1]}", ok, g.loc(), f"{entry.rsplit('::', 1)[-1]} calls Parser::get_many with is_safe = {vals} (expected {bool(want)})")
+        reached, via = specialised_reach(prog, [(g.id, {}, {})])
+        hit = sorted(set(reached) & other)
+        miss = sorted(want - set(reached))
+        ok = not hit and not miss
+        ctx.ob("R11.4", f"entry-flag:{entry.rsplit('::', 1)[-1]}", ok, g.loc(),
+               f"{entry.rsplit('::', 1)[-1]} reaches {sorted(x.rsplit('::', 1)[-1] for x in want)} and no walker of the other mode" if ok else
+               (f"{entry.rsplit('::', 1)[-1]} reaches a walker of the other mode: " + " -> ".join(x.rsplit('::', 1)[-1] for x, l in path_to(via, hit[0])) if hit else
+                f"{entry.rsplit('::', 1)[-1]} does not reach {[x.rsplit('::', 1)[-1] for x in miss]}"))
 
 
 def _error_codes(prog, fn):
